@@ -201,9 +201,19 @@ void add_sample(const std::string& s)
 // ---------------------------------------------------------------------------------------------------------------
 // solver
 volatile sig_atomic_t in_query = 0;
+volatile sig_atomic_t alarms_in_query = 0;
+void abandon_stuck_query();
 void on_alarm(int)
 {
-    if (in_query && C) Z3_interrupt(*C);
+    if (!in_query || !C) return;
+    // first expiry: cooperative interrupt + grace period; second expiry: the solver does not react to the interrupt (long
+    // polynomial operation inside nlsat) -> the path is given up and counted as truncated (never as explored)
+    if (alarms_in_query++ == 0)
+    {
+        Z3_interrupt(*C);
+        alarm(4);
+    }
+    else abandon_stuck_query();
 }
 struct QR
 {
@@ -298,6 +308,7 @@ void cvc5_fallback(z3::solver& q, QR& out)
         for (unsigned i = 0; i < as.size(); ++i) q2.add(as[i]);
         for (unsigned i = 0; i < hv.size(); ++i) q2.add(hv[i]);
         in_query = 1;
+        alarms_in_query = 0;
         alarm(3);
         z3::check_result r2 = q2.check();
         alarm(0);
@@ -333,6 +344,7 @@ QR query(const z3::expr* extra1, const z3::expr* extra2 = nullptr)
     in_query = 1;
     // once the second solver has proved useful in this run, z3 gets a shorter first attempt (the query then goes to cvc5)
     const bool   cvc5_useful = S->q_cvc5_unsat.load() + S->q_cvc5_sat.load() >= 2;
+    alarms_in_query = 0;
     alarm((unsigned)std::ceil(cvc5_useful ? std::min(query_s, 3.0) : query_s));
     try
     {
@@ -907,6 +919,37 @@ void write_summary();
     release_slot();
     wait_children();
     if (is_root)
+    {
+        write_summary();
+        _exit(S->violations.load() ? 1 : 0);
+    }
+    _exit(0);
+}
+
+const char* const STUCK_LABEL = "truncated: solver ignored the interrupt (path given up)";
+void abandon_stuck_query()
+{
+    // async-signal context, same discipline as on_crash
+    if (S)
+    {
+        S->truncated++;
+        long n = S->nlabels.load();
+        for (long i = 0; i < n; ++i)
+            if (std::strcmp(S->labels[i].name, STUCK_LABEL) == 0)
+            {
+                S->labels[i].checked++;
+                break;
+            }
+        if (have_slot)
+        {
+            have_slot = false;
+            S->live--;
+            sem_post(&S->slots);
+        }
+    }
+    int st;
+    while (wait(&st) > 0 || errno == EINTR) {}
+    if (is_root && S)
     {
         write_summary();
         _exit(S->violations.load() ? 1 : 0);
@@ -1789,6 +1832,7 @@ int main(int argc, char** argv)
     label("crash: SIGSEGV");
     label("crash: SIGABRT (uncaught exception / abort)");
     label("crash: signal");
+    label(STUCK_LABEL);
 
     if (const char* e = getenv("SYM_REPLAY"))
     {
